@@ -135,7 +135,7 @@ void h_child_timer(void)
 	__CPROVER_assert(g_kill_calls == 1 && g_kill_arg == &v_ch->wait, "[C19] the child is signalled only through the kill helper, which refuses a pid whose death was reaped");
 	__CPROVER_assert(g_kill_sig == (verif_in.num_kills < 5 ? SIGTERM : SIGKILL), "[C19] five termination requests first, then an unconditional kill");
 	if (verif_in.kill_ret < 0) {
-		__CPROVER_assert(g_unreg == 1 && g_unreg_arg == &v_ch->wait && g_frees == 1 && g_treg == 0, "[C19] when the process is gone: the interest is released, the record freed, no further timer (so no further signal)");
+		__CPROVER_assert(g_unreg == 1 && g_unreg_arg == &v_ch->wait && g_frees == 1 && g_treg == 0, "[C19,C05,C18] when the process is gone: the interest is released, the record freed, and no timer of that record is (or stays) registered: a freed timer in the heap would corrupt the firing of every other timer");
 	} else {
 		__CPROVER_assert(g_unreg == 0 && g_frees == 0, "[C19] otherwise the record stays");
 		__CPROVER_assert(g_treg == 1 && g_treg_arg == &v_ch->signal_timer, "[C19] and the signalling timer is re-armed");
